@@ -168,6 +168,13 @@ def run_case(concepts, case, spec):
             if rng.random() < .3:
                 arg.reverse()
         COL.count('mutated_argument_sequences')
+    # collections whose iteration itself queries the same context (a caller's filtering pipeline)
+    for fn, items in ((ctx.intension, list(ctx.objects)), (ctx.extension, list(ctx.properties))):
+        for _ in range(2 if len(ctx.objects) <= 400 and len(ctx.properties) <= 400 else 0):
+            sub = rng.sample(items, rng.randint(1, min(len(items), 4)))
+            call(fn, common.reentrant_labels(sub, ctx))
+            call(fn, common.reentrant_labels(sub + sub[:1], ctx), True)
+    COL.count('reentrant_argument_collections')
     if hash(gen.table_key(case)) % 12 == 0:
         def queries(c):
             for sub in ([], list(c.objects[:1]), list(c.objects[-2:]), list(c.objects)):
